@@ -31,7 +31,8 @@ class T:
             return f'Obj[{self.name}]'
         if self.k == 'none':
             return 'None'
-        nm = {'set': 'Set', 'map': 'Map', 'dset': 'DSet', 'opt': 'Opt', 'tuple': 'Tuple'}[self.k]
+        nm = {'set': 'Set', 'map': 'Map', 'dset': 'DSet', 'opt': 'Opt', 'tuple': 'Tuple', 'list': 'List', 'cnt': 'Cnt',
+              'lift': 'Lift'}.get(self.k, self.k)
         return f"{nm}[{','.join(map(str, self.args))}]"
 
 
@@ -105,6 +106,10 @@ def parse_type(s: str) -> T:
             return NONE
         if name == 'Set':
             return SET(args[0])
+        if name == 'List':
+            return T('list', (args[0],))
+        if name == 'Cnt':
+            return T('cnt', (args[0],))
         if name == 'Map':
             return MAP(args[0], args[1])
         if name == 'DSet':
